@@ -550,6 +550,10 @@ def rule_r3(prog, res) -> None:
             if isinstance(x, ast.Name) and x.id in tainted and isinstance(x.ctx, ast.Load):
                 n += 1
                 p = pm.get(id(x))
+                child = x
+                while isinstance(p, (ast.BoolOp, ast.IfExp)) and not (isinstance(p, ast.IfExp) and p.test is child):
+                    child, p = p, pm.get(id(p))
+                x = child
                 if isinstance(p, ast.BinOp) and isinstance(p.op, (ast.Add, ast.Sub, ast.Mult, ast.Div, ast.FloorDiv, ast.Mod, ast.Pow)):
                     bad = (x, "arithmetic")
                 elif isinstance(p, ast.Subscript) and p.slice is x:
